@@ -30,9 +30,18 @@ OK_CBS = list(range(0, 8))
 
 # The real code never fires an event for frame 0 or 1 that is pending when fn passes GSM_MAX_FN-2 / GSM_MAX_FN-1
 # (sched_gsmtime_execute compares evt->fn with the unreduced fn + SCHEDULE_AHEAD): theorem wrap_full_fails.
-# Until that is fixed in the repo (or entered into known_findings.json) the oracle treats exactly that region as known;
-# set VERIF_C08_GSMTIME_WRAP=strict to make the oracle demand the full (modulo GSM_MAX_FN) statement.
-WRAP_KNOWN = os.environ.get("VERIF_C08_GSMTIME_WRAP", "known") != "strict"
+# The oracle demands the full (modulo GSM_MAX_FN) statement ("strict") as soon as known_findings.json has an entry for
+# that region (match: part = gsmtime, region = hyperframe-wrap) or VERIF_C08_GSMTIME_WRAP=strict is set; until then
+# ("skip") a history is judged up to the first sched_gsmtime_execute that would have to fire such an event.
+WRAP_MODE = os.environ.get("VERIF_C08_GSMTIME_WRAP", "skip")
+WRAP_KNOWN = WRAP_MODE != "strict"
+
+
+def set_wrap_mode(run):
+    global WRAP_KNOWN
+    listed = any(k.get("property") == "C08" and k.get("match", {}).get("region") == "hyperframe-wrap"
+                 for k in run.known.get("findings", []))
+    WRAP_KNOWN = not (WRAP_MODE == "strict" or listed)
 
 
 def gen(run):
@@ -538,7 +547,8 @@ def evaluate(cur, ops, obs):
                     what = "sched_gsmtime_execute(%d) made %d tdma_schedule_set call(s) although no event is pending for frame %d" % (fn, len(got), tgt)
                 else:
                     what = "sched_gsmtime_execute(%d): the tdma_schedule_set calls (frame offset, p3, item set) are not the ones of the events pending for frame %d" % (fn, tgt)
-                return {"what": what, "op_index": i, "frame": fn, "got": ob, "want_calls": want}
+                return {"what": what, "op_index": i, "frame": fn, "got": ob, "want_calls": want, "exec_fn": fn, "due_event_fn": tgt,
+                        "region": "hyperframe-wrap" if fn + AHEAD >= MAX_FN else "in-hyperframe"}
             if rc != len(due):
                 return {"what": "sched_gsmtime_execute returned %d after %d calls" % (rc, len(due)), "op_index": i, "frame": fn, "got": ob}
             pending = [e for e in pending if e[0] != tgt]
@@ -646,7 +656,7 @@ def report(run, exe, cur, ops, res):
     w = {"part": "gsmtime", "kind": "gsmtime-history", "history": to_line(cur, ops), "impl": ans, "fails": res2["what"],
          "failing_op": op_str(ops[k]) if k < len(ops) else None,
          "n_events": len(fns), "min_event_fn": min(fns) if fns else -1,
-         "crosses_hyperframe": any(o[0] == "gx" and o[1] + AHEAD >= MAX_FN for o in ops),
+         "region": res2.get("region", "n/a"), "exec_fn": res2.get("exec_fn", -1), "due_event_fn": res2.get("due_event_fn", -1),
          "property_requires": "sched_gsmtime accepts while fewer than 16 events are pending, else -EBUSY; sched_gsmtime_execute(fn) hands exactly "
                               "the events pending for frame fn+2 (mod GSM_MAX_FN) to tdma_schedule_set(1, set, p3), once, in acceptance order; "
                               "the set's k-th frame runs in frame F-1+k; after sched_gsmtime_reset nothing is pending"}
@@ -654,6 +664,7 @@ def report(run, exe, cur, ops, res):
 
 
 def search(run, corr, deep):
+    set_wrap_mode(run)
     try:
         exe = build_harness(run, san=True)
         corr.distribution["gsmtime oracle: sched_gsmtime.c + tdma_sched.c instrumented (ASan+UBSan)"] = 1
@@ -698,7 +709,8 @@ def search(run, corr, deep):
                 found += report(run, exe, cur, ops, res)
     corr.distribution["gsmtime oracle: histories within the premises"] = stats["ok"] + stats["fail"]
     corr.distribution["gsmtime oracle: histories outside the premises (skipped)"] = stats["n/a"]
-    corr.distribution["gsmtime oracle: histories ending in the known hyperframe-wrap region (judged up to there: skipped)"] = stats["known-wrap"]
+    corr.distribution["gsmtime oracle: histories reaching the hyperframe-wrap region F in {0,1} (judged up to there)"] = stats["known-wrap"]
+    corr.distribution["gsmtime oracle: full modulo-GSM_MAX_FN statement demanded"] = 0 if WRAP_KNOWN else 1
     corr.distribution["gsmtime oracle: sched_gsmtime requests checked"] = events
     wrap_probe(run, exe, corr)
     return found
@@ -723,6 +735,9 @@ def wrap_probe(run, exe, corr):
 
 def replay_witness(run, w):
     """re-run one recorded witness; returns True if the property still fails on it"""
+    if w.get("region") == "hyperframe-wrap":
+        global WRAP_KNOWN
+        WRAP_KNOWN = False
     try:
         exe = build_harness(run, san=True)
     except vf.HarnessError:
